@@ -438,6 +438,43 @@ def c08_copy(name, how, with_programs, T=4, pops=1, transfers=0, partial_init=Fa
     return body
 
 
+def c08_timeseries_roundtrip(how):
+    """A TimeSeries (the container of every databook / program book number) survives deepcopy / pickle / copy() field by field,
+    for every value incl. 0 and every mix of set and unset optional fields"""
+
+    def body(env):
+        am, ap, au, apar, afp = mr.modules()
+        from vsym.core import _same
+
+        with env.installed(shim.patches_for(au)):
+            cases = {
+                "assumption_only": au.TimeSeries(assumption=env.real("a", -10, 10), units="x"),
+                "assumption_and_sigma": au.TimeSeries(assumption=env.real("a2", -10, 10), sigma=env.real("s2", 0, 10)),
+                "time_data": au.TimeSeries(t=[2000.0, 2001.0], vals=[env.real("v0", -10, 10), env.real("v1", -10, 10)], sigma=env.real("s3", 0, 10)),
+                "both": au.TimeSeries(t=[2000.0], vals=[env.real("w0", -10, 10)], assumption=env.real("a4", -10, 10)),
+                "empty": au.TimeSeries(units="y"),
+            }
+            for label, src in cases.items():
+                if how == "deepcopy":
+                    new = copy.deepcopy(src)
+                elif how == "pickle":
+                    new = pickle.loads(pickle.dumps(src))
+                else:
+                    new = src.copy()
+                for slot in src.__slots__:
+                    a, b = getattr(src, slot, None), getattr(new, slot, None)
+                    if isinstance(a, list):
+                        ok = isinstance(b, list) and len(a) == len(b) and all(_same(x, y) or (not shim.is_sym(x) and not shim.is_sym(y) and x == y) for x, y in zip(a, b))
+                        env.claim("%s|%s|%s" % (how, label, slot), env.true(ok), key="timeseries_roundtrip")
+                    elif a is None or b is None or isinstance(a, str):
+                        env.claim("%s|%s|%s" % (how, label, slot), env.true(a == b if isinstance(a, str) or isinstance(b, str) else (a is None and b is None)), key="timeseries_roundtrip")
+                    else:
+                        env.claim("%s|%s|%s" % (how, label, slot), env.same(a, b), key="timeseries_roundtrip")
+                env.claim("%s|%s|is_new_object" % (how, label), env.true(new is not src and (new.vals is not src.vals or not src.vals)), key="timeseries_roundtrip")
+
+    return body
+
+
 def c08_leak(units_a, units_b, T=3):
     """A model built and run, then a *different* model (other transfer units) built and run in the same process, then the first one
     built again from the same inputs: the two builds of the first model run identically, and the transfer parameter holds the
@@ -592,6 +629,8 @@ def specs(prop, tier):
         out.append(("copy[M1;rebuild;partial initialization]", c08_copy, dict(name="M1", how="rebuild", with_programs=False, partial_init=True)))
         out.append(("interleave[deepcopy]", c08_interleave, dict(how="deepcopy")))
         out.append(("interleave[pickle]", c08_interleave, dict(how="pickle")))
+        for how in ("deepcopy", "pickle", "copy"):
+            out.append(("timeseries_roundtrip[%s]" % how, c08_timeseries_roundtrip, dict(how=how)))
         out.append(("other_model_in_between[probability transfer;duration transfer]", c08_leak, dict(units_a="probability", units_b="duration")))
         if not q:
             out.append(("copy[M1;pickle;2 pops;transfer]", c08_copy, dict(name="M1", how="pickle", with_programs=False, pops=2, transfers=1)))
